@@ -2,6 +2,7 @@
 import json
 import os
 import re
+import subprocess
 
 from .. import common
 
@@ -47,6 +48,25 @@ def proof_obligations(chk, build, prop_files, gen_modules=()):
             r = res[n]
             good = r == "closed" or all(a in STDLIB_AXIOMS for a in r)
             chk.obligation(f"{rel}:{n}", good, "Closed under the global context" if r == "closed" else "axioms: " + ", ".join(r))
+            ok_all &= good
+    if chk.tier == "thorough":
+        # independent re-check of the compiled property modules and everything they depend on, with the axiom summary
+        for rel in prop_files:
+            if not common.vo_ok(rel):
+                continue
+            mod = "J2M." + rel[:-2].replace("/", ".")
+            try:
+                p = subprocess.run(["timeout", "2400", "coqchk", "-silent", "-o"] + common.coq_flags() + [mod],
+                                   cwd=common.COQ, capture_output=True, text=True)
+                out = p.stdout + p.stderr
+                m = re.search(r"\* Axioms:\s*(.*?)\n\s*\n", out, re.S)
+                axioms = m.group(1).strip() if m else "?"
+                unsafe = re.findall(r"relying on [^:]+:\s*(?!<none>)(\S.*)", out) + re.findall(r"positivity is assumed:\s*(?!<none>)(\S.*)", out)
+                good = p.returncode == 0 and axioms == "<none>" and not unsafe
+                chk.obligation(f"coqchk -o {mod}", good, f"exit {p.returncode}; Axioms: {axioms[:300]}" + (f"; unsafe: {unsafe[:3]}" if unsafe else ""))
+            except Exception as e:  # noqa
+                good = False
+                chk.obligation(f"coqchk -o {mod}", False, f"{type(e).__name__}: {e}")
             ok_all &= good
     chk.trusted = list(TRUSTED)
     return ok_all
